@@ -5,8 +5,74 @@ from props import geomops_common as gc
 PIPES = {"geomops": gc.pipe("C02")}
 
 
+STRIDE = {"No": 0, "XY": 2, "XYZ": 3, "XYM": 3, "XYZM": 4, "L5": 5, "L6": 6}
+
+
+def C(s, j):
+    return [10 * j + i for i in range(1, s + 1)]
+
+
+def value(k, s, j):
+    """a value of kind k and stride s built from the coordinates j, j+1, ... (distinguishable between the two objects)"""
+    if k == "PT":
+        return C(s, j)
+    if k in ("LS", "LR"):
+        return [C(s, j), C(s, j + 1)]
+    if k in ("PG", "MLS"):
+        return [[C(s, j), C(s, j + 1)], [], [C(s, j + 2)]]
+    if k == "MPT":
+        return [C(s, j), C(s, j + 1)]
+    return [[[C(s, j), C(s, j + 1)]], [], [[C(s, j + 2)], []]]
+
+
+def swap_cases(ctx):
+    """Swap exchanges the two values COMPLETELY: the objects are created with different layouts (different strides, or the
+    same stride with another meaning), hold different coordinates and SRIDs; after Swap, and after a mutation of one of them
+    and a second Swap, every projection must be the other one's."""
+    pairs = [("XY", "XYZ"), ("XYZ", "XYM"), ("XYZM", "XY"), ("L5", "XYM"), ("XY", "No")]
+    if not ctx.quick:
+        pairs += [("XYM", "XYZM"), ("L6", "L5"), ("No", "XYZ"), ("XYZ", "XY")]
+    cases = []
+    for k in ("PT", "LS", "LR", "PG", "MPT", "MLS", "MPG"):
+        for l1, l2 in pairs:
+            s1, s2 = STRIDE[l1], STRIDE[l2]
+            h = []
+            if s1:
+                h.append(dict(op="setcoords", to=1, v=value(k, s1, 1)))
+            if s2:
+                h.append(dict(op="setcoords", to=2, v=value(k, s2, 5)))
+            for srids in ([(1, 4326)], [(2, 3857)], [(1, 4326), (2, 3857)]):
+                hist = h + [dict(op="srid", to=t, srid=v) for t, v in srids] + [dict(op="swap")]
+                hist += [dict(op="reverse", to=1), dict(op="swap"), dict(op="reverse", to=2)]
+                cases.append(dict(k=k, l=l1, l2=l2, hist=hist))
+    return cases
+
+
+def pushbad_cases(ctx):
+    """A part of ANOTHER layout is refused and leaves the receiver unchanged - also when the stride is the same (XYZ / XYM),
+    when the part has no layout at all, or more dimensions than four."""
+    wrong = {"XY": ["XYZ", "XYM", "No", "L5"], "XYZ": ["XYM", "XY", "XYZM", "No"], "XYM": ["XYZ", "XYZM"],
+             "XYZM": ["XYZ", "L5", "No"], "L5": ["L6", "XYZM", "No"], "No": ["XY"]}
+    cases = []
+    for k in ("PG", "MPT", "MLS", "MPG"):
+        for l, ws in wrong.items():
+            s = STRIDE[l]
+            for w in ws:
+                for empty in (False, True):
+                    if STRIDE[w] == 0 and not empty:
+                        continue
+                    pre = [dict(op="setcoords", to=1, v=value(k, s, 1))] if s else []
+                    cases.append(dict(k=k, l=l, hist=pre + [dict(op="pushbad", to=1, wl=w, empty=empty),
+                                                            dict(op="pushbad", to=2, wl=w, empty=empty), dict(op="reverse", to=1)]))
+    return cases
+
+
 def run(ctx, verdict):
     cfg = "GeomOps_C02_quick.cfg" if ctx.quick else "GeomOps_C02_thorough.cfg"
     gc.explore(ctx, verdict, "C02", cfg)
+    extra = swap_cases(ctx) + pushbad_cases(ctx)
+    vlib.note_cases(ctx, extra)
+    ctx.coverage_extra["swap_and_misfit_cases"] = len(extra)
+    gc.pipe("C02")(ctx, verdict, extra)
     ctx.assumptions += ["ordinates are opaque tokens instantiated from a palette of 128 float64 bit patterns (rotated by seed)",
                         "histories bounded by MaxLen of the configuration; parts from the model's alphabet"]
